@@ -7,7 +7,7 @@
       ["R"; pass; node]                             ranking of the target nodes observed at the set -> list site
       ["T"; "I"|"B"; s; p; "I"|"B"|"L"; value; opt datatype; opt lang]   the served graph, in answer order
     Output table:
-      row 0: "ok" | "err", C15_dom as "1"/"0"
+      row 0: "ok" | "err", C15_dom as "1"/"0", C15_names_dom as "1"/"0"
       [pass; "Q"; kind; text] | [pass; "Y"; "I"|"B"; s; p; "I"|"B"|"L"; value; datatype] | [pass; "X"; error]  *)
 From Coq Require Import List Ascii String ZArith Bool.
 From Shexer Require Import Lib.PyStr Gen.Consts Spec.Rdf Spec.EndpointSpec Model.Table Model.Endpoint.
@@ -65,7 +65,7 @@ Definition c15_run (t : table) : table :=
   let O := {| o_ord := fun _ _ l => l;
               o_set := fun pass l => order_by_rank (c15_rank t (dec_of_N (N.of_nat pass))) l |} in
   let r := run c m G O in
-  [(if r_ok r then Str "ok" else Str "err"); bstr (C15_dom (c_allow_num c) (c_tau c) G)]
+  [(if r_ok r then Str "ok" else Str "err"); bstr (C15_dom (c_allow_num c) (c_tau c) G); bstr (C15_names_dom c m G)]
     :: map (event_row (Str "1")) (r_p1 r) ++ map (event_row (Str "2")) (r_p2 r).
 
 Definition entry_c15 (name : str) (t : table) : option table :=
